@@ -12,6 +12,8 @@ CONSTANTS
   FixNonRequest = FALSE
   FixLongWs = TRUE
   FarChoices = {FALSE}
+  HasValidator = TRUE
+  NilPointerSkipsValidation = TRUE
 INIT TableInit
 NEXT TableNext
 
